@@ -39,7 +39,10 @@ def run(rep, tier):
             continue
         got = sorted((tuple(vmodel.show_atoms(a)), T.show(p) if p is not None else "?") for a, p in r["accept"])
         exp = sorted((tuple(vmodel.show_atoms(a)), T.show(p)) for a, p in ref)
-        rep.ob(rb, "opc=%#04x" % v, got == exp and not r["unrec"],
+        same = got == exp
+        if not same and not r["unrec"] and all(p is not None for _a, p in r["accept"]):
+            same, _why = vmodel.equivalent(r["accept"], ref)      # the same condition split into paths differently
+        rep.ob(rb, "opc=%#04x" % v, same and not r["unrec"],
                "accepting paths of opcode %#04x (%s)" % (v, isa.TABLE[v]["kind"]),
                expected=exp, found=got if not r["unrec"] else ["unrecognised-construct"] + list(r["unrec"][:3]),
                sample=(v in (0x18, 0x05, 0x85, 0x63)))
